@@ -79,7 +79,14 @@ impl Dependencies {
 
 impl ToTokens for Dependencies {
     fn to_tokens(&self, tokens: &mut TokenStream) {
-        let lines = self.dependencies.iter();
+        // a `HashSet` is iterated in a different order in every compilation: emit the calls in a
+        // fixed order, so that the generated `visit_dependencies` does not change between builds
+        let mut lines: Vec<TokenStream> = self
+            .dependencies
+            .iter()
+            .map(ToTokens::to_token_stream)
+            .collect();
+        lines.sort_by_cached_key(TokenStream::to_string);
 
         tokens.extend(quote![
             #(#lines;)*
